@@ -11,6 +11,7 @@ import (
 	"encoding/json"
 
 	"github.com/formancehq/numscript/internal/lsp"
+	"github.com/formancehq/numscript/internal/parser"
 )
 
 func init() {
@@ -46,5 +47,52 @@ func opFrame(c *ExecCase) map[string]any {
 		reads = append(reads, step)
 	}
 	res["reads"] = reads
+	return res
+}
+
+// parseseq: parses Args one after the other keeping every ParseResult, then looks at all of them again:
+// what a parse returned (errors, their ranges and display, the tree) must not change because other texts
+// were parsed afterwards. Reports the indices whose second look differs from the first.
+func init() {
+	extraOps["parseseq"] = opParseSeq
+}
+
+func parseView(pr parser.ParseResult, src string) string {
+	sexp, _ := programToSexp(pr.Value)
+	out := sexp
+	for _, e := range pr.Errors {
+		out += "|" + rng(e.Range) + " " + e.Msg
+	}
+	shown := ""
+	if p := safely(func() { shown = parser.ParseErrorsToString(pr.Errors, src) }); p != "" {
+		shown = "PANIC " + p
+	}
+	return out + "|" + shown
+}
+
+func opParseSeq(c *ExecCase) map[string]any {
+	res := map[string]any{"id": c.ID}
+	results := make([]parser.ParseResult, len(c.Args))
+	first := make([]string, len(c.Args))
+	for i, t := range c.Args {
+		if p := safely(func() { results[i] = parser.Parse(t) }); p != "" {
+			res["parsePanic"] = p
+			return res
+		}
+		first[i] = parseView(results[i], t)
+	}
+	changed := []int{}
+	detail := []string{}
+	for i, t := range c.Args {
+		again := parseView(results[i], t)
+		if again != first[i] {
+			changed = append(changed, i)
+			if len(detail) < 2 {
+				detail = append(detail, "first: "+first[i]+" ;; later: "+again)
+			}
+		}
+	}
+	res["changed"] = changed
+	res["detail"] = detail
 	return res
 }
